@@ -278,6 +278,18 @@ class Vals:
             ex.fact(Implies(tag(h) == FLOAT_T, r == h))
             ex.fact(Implies(tag(h) != FLOAT_T, And(tag(r) == FLOAT_T, fk(r) == FIN, rv(r) == num(h))))
             return V(r)
+        if fname == 'int' and len(args) == 1 and not kwargs and a0.kind == 'val':
+            h = a0.t
+            ex.raise_if(st, Not(Or(is_num(h), tag(h) == STR_T)), 'TypeError')
+            ex.raise_if(st, Or(tag(h) == STR_T, is_nan(h)), 'ValueError')            # a string that may not spell an integer; int(nan)
+            ex.raise_if(st, And(tag(h) == FLOAT_T, Or(fk(h) == PINF, fk(h) == NINF)), 'OverflowError')
+            ex.use('axiom:int(x) is x itself for an object of exact type int (CPython returns the operand); a bool gives the int 0 / 1, a finite float '
+                   'an int (its truncation, value not modelled)')
+            r = fresh_int('int')
+            ex.fact(Implies(tag(h) == INT_T, r == h))
+            ex.fact(Implies(tag(h) == BOOL_T, And(tag(r) == INT_T, iv(r) == If(bv(h), 1, 0))))
+            ex.fact(Implies(tag(h) == FLOAT_T, tag(r) == INT_T))
+            return V(r)
         if fname == 'len' and len(args) == 1 and a0.kind == 'val':
             ex.raise_if(st, Not(has_len(a0.t)), 'TypeError')
             return I(ln(a0.t))
@@ -414,6 +426,17 @@ class Vals:
             return If(tag(h) == NONE_T, False, If(tag(h) == BOOL_T, bv(h), If(tag(h) == INT_T, iv(h) != 0,
                       If(tag(h) == FLOAT_T, Not(And(fk(h) == FIN, rv(h) == 0)), If(tag(h) == DT_T, True, ln(h) > 0)))))
         return NotImplemented
+
+
+def to_handle(sv):
+    """the object a symbolic value denotes, as a handle: a value is its handle, a bool / None produced by the code is the singleton"""
+    if sv.kind == 'val':
+        return sv.t
+    if sv.kind == 'bool':
+        return If(sv.t, TRUE_H, FALSE_H)
+    if sv.kind == 'none':
+        return NONE_H
+    raise OutOfSubset('%s as an object of the value universe' % sv.kind)
 
 
 # ---- CPython axioms used by contracts about sorting ------------------------------------------------------------------------
